@@ -89,6 +89,18 @@ func c01Gen(c *core.Ctx) func(yield func(c01Case) bool) {
 		if !ok {
 			return
 		}
+		// optional slices: the same three-kind graphs with every slice point declared required=false
+		allGraphs(3, three, false, func(e [][]int) bool {
+			for _, base := range [][]int{{0, 1, 2}, {2, 1, 0}} {
+				if ok = yield(c01Case{scen.GraphProg{N: 3, Edges: e, Base: base, SliceOpt: true, Family: "three-n3-optslice"}, 0}); !ok {
+					return false
+				}
+			}
+			return true
+		})
+		if !ok {
+			return
+		}
 		// (c) consistent substitution: early-reference-only wrap plans (every holder and the lookup
 		// must see the one early proxy)
 		allGraphs(3, three, false, func(e [][]int) bool {
@@ -128,6 +140,39 @@ func c01Gen(c *core.Ctx) func(yield func(c01Case) bool) {
 					for _, base := range [][]int{{0, 1, 2}, {2, 1, 0}} {
 						if ok = yield(c01Case{scen.GraphProg{N: 3, Edges: e, Wrap: wrap, Base: base, Family: "three-n3-binst"}, 0}); !ok {
 							return false
+						}
+					}
+				}
+			}
+			return true
+		})
+		if !ok {
+			return
+		}
+		// programmatic look-ups during initialisation: node i looks node j up inside its Init (j is
+		// created on demand while i is still in creation - also when i has no injection point of
+		// its own), without substitution and with one node substituted
+		allGraphs(3, []int{scen.ENone, scen.EName}, false, func(e [][]int) bool {
+			for _, lz := range []int{0, 2, 4, 6} {
+				lazy := []bool{false, lz&2 == 2, lz&4 == 4}
+				for i := 0; i < 3; i++ {
+					for j := 0; j < 3; j++ {
+						if i == j {
+							continue
+						}
+						for node := -1; node < 3; node++ {
+							for _, plan := range []int{scen.WrapEarly, scen.WrapAfter, scen.WrapEarlyAfterSame} {
+								w := []int{0, 0, 0}
+								if node >= 0 {
+									w[node] = plan
+								} else if plan != scen.WrapEarly {
+									continue
+								}
+								p := scen.GraphProg{N: 3, Edges: e, Lazy: lazy, Wrap: w, InitLookup: [][]int{{i, j}}, Family: "two-n3-initlookup"}
+								if ok = yield(c01Case{p, 0}); !ok {
+									return false
+								}
+							}
 						}
 					}
 				}
@@ -192,10 +237,21 @@ func c01Run(c *core.Ctx) {
 			cc := cs
 			cc.Choices = ch.Choices()
 			key := func(kind string) string {
-				return "C01/" + kind + "/" + core.Hash(p.N, p.Edges, p.Base, p.Reg, p.Wrap, p.Mode, cc.Choices)
+				return "C01/" + kind + "/" + core.Hash(p.N, p.Edges, p.Base, p.Reg, p.Wrap, p.Mode, p.Lazy, p.InitLookup, p.SliceOpt, cc.Choices)
 			}
 			if o.Panic != "" || o.Abort != "" || o.Err != nil {
 				return // C01 speaks about successful starts (C02 decides whether it had to succeed)
+			}
+			lazyFailed := make([]bool, p.N)
+			for t := 0; t < p.N; t++ {
+				if len(p.Lazy) > t && p.Lazy[t] {
+					// lazy nodes are looked up now (created on demand unless a start-time holder or a
+					// look-up needed them); a failing on-demand creation is C02's / C03's matter
+					scen.Guard(func() { o.Fin[t], o.FinErr[t] = o.App.GetComponentByName(scen.Name(t, p.N)) })
+					if o.FinErr[t] != nil || o.Fin[t] == nil {
+						o.Fin[t], o.FinErr[t], lazyFailed[t] = nil, nil, true
+					}
+				}
 			}
 			oq := *o
 			oq.Prog = q
@@ -208,6 +264,9 @@ func c01Run(c *core.Ctx) {
 				anyWrap = anyWrap || w != 0
 			}
 			for i := 0; i < p.N; i++ {
+				if lazyFailed[i] {
+					continue
+				}
 				if o.FinErr[i] != nil || o.Fin[i] == nil {
 					c.Report(key("lookup"), "lookup-failed", fmt.Sprintf("by-name lookup of %s failed after a successful start: %v", scen.Name(i, p.N), o.FinErr[i]), cc)
 					return
@@ -238,6 +297,9 @@ func c01Run(c *core.Ctx) {
 				b := scen.NodeOf(x)
 				if b == nil {
 					continue
+				}
+				if lazyFailed[b.Idx] {
+					continue // its on-demand creation failed: nothing was published to compare with
 				}
 				if seen[b.Idx] {
 					c.Report(key("bytype-dup"), "shared-instance", "by-type lookup returned "+b.Nm+" twice", cc)
